@@ -313,7 +313,7 @@ def random_runs(rng, n_runs, algos, max_n=40):
             run["ti"] = bool(rng.randint(2)) and run["form"] == "function"
             run["init"] = [int(x) for x in rng.choice(n, size=rng.randint(0, min(3, n)), replace=False)]
         elif algo == "kmedoids":
-            run["sweeps"] = int(rng.randint(1, 4))
+            run["sweeps"] = int(rng.randint(0, 4))      # (0: assign to the given / drawn medoids, no refinement)
             mode = rng.randint(4)
             run["k"] = kk
             if mode == 0:        # cold, seeded
